@@ -1,11 +1,599 @@
 (** Proofs about the text forms of periods and instants [PeriodStr]. *)
-From Coq Require Import ZArith List Bool Ascii String Lia ZifyBool.
-From Verif Require Import Base Cal Tables Period PeriodStr.
+From Coq Require Import ZArith List Bool Ascii String Lia ZifyBool Wf_Z.
+From Verif Require Import Base Cal Tables Period PeriodStr PeriodStrSpec CalProofs.
 Ltac Zify.zify_post_hook ::= Z.to_euclidean_division_equations.
 Import ListNotations.
 Open Scope string_scope.
 Open Scope Z_scope.
 
-Lemma eternity_roundtrip_lemma :
-  show_period eternity_period = Ok "ETERNITY" /\ parse_period "ETERNITY" = Ok eternity_period.
-Proof. split; reflexivity. Qed.
+(** * Characters *)
+
+Lemma digit_cases k : 0 <= k <= 9 ->
+  k = 0 \/ k = 1 \/ k = 2 \/ k = 3 \/ k = 4 \/ k = 5 \/ k = 6 \/ k = 7 \/ k = 8 \/ k = 9.
+Proof. lia. Qed.
+
+Ltac digit_split k H :=
+  destruct (digit_cases k H) as [?|[?|[?|[?|[?|[?|[?|[?|[?|?]]]]]]]]]; subst k.
+
+Lemma digit_val_char k : 0 <= k <= 9 -> digit_val (digit_char k) = Some k.
+Proof. intros H. digit_split k H; reflexivity. Qed.
+
+Lemma is_digit_char k : 0 <= k <= 9 -> is_digit (digit_char k) = true.
+Proof. intros H. unfold is_digit. rewrite digit_val_char by assumption. reflexivity. Qed.
+
+Lemma dv_char k : 0 <= k <= 9 -> dv (digit_char k) = k.
+Proof. intros H. unfold dv. rewrite digit_val_char by assumption. reflexivity. Qed.
+
+(* a digit is none of the other characters the grammar uses *)
+Definition sepc (c : ascii) : bool :=
+  ((c =? ":") || (c =? "-") || (c =? "W") || (c =? "_") || (c =? "+") || (c =? "e") || (c =? "E")
+   || is_space c)%char.
+
+Lemma digit_not_sep c : is_digit c = true -> sepc c = false.
+Proof.
+  destruct c as [[] [] [] [] [] [] [] []]; try reflexivity; intros H; discriminate H.
+Qed.
+
+Lemma digit_sep_facts c : is_digit c = true ->
+  (c =? ":")%char = false /\ (c =? "-")%char = false /\ (c =? "W")%char = false /\
+  (c =? "_")%char = false /\ (c =? "+")%char = false /\ is_space c = false /\
+  (lower_char c =? "e")%char = false.
+Proof.
+  destruct c as [[] [] [] [] [] [] [] []]; try (intros H; discriminate H); intros _;
+    repeat split; reflexivity.
+Qed.
+
+Lemma digit_val_range c k : digit_val c = Some k -> 0 <= k <= 9.
+Proof.
+  unfold digit_val.
+  repeat match goal with |- context [if ?b then _ else _] => destruct b end;
+    intros H; inversion H; lia.
+Qed.
+
+Lemma lower_char_colon c : (lower_char c =? ":")%char = (c =? ":")%char.
+Proof. destruct c as [[] [] [] [] [] [] [] []]; reflexivity. Qed.
+
+(** * Strings *)
+
+Lemma append_nil_r s : s ++ "" = s.
+Proof. induction s; cbn; congruence. Qed.
+
+Lemma append_assoc a b c : (a ++ b) ++ c = a ++ b ++ c.
+Proof. induction a; cbn; congruence. Qed.
+
+Lemma has_char_app c a b : has_char c (a ++ b) = has_char c a || has_char c b.
+Proof. induction a; cbn; [reflexivity|]. rewrite IHa. apply orb_assoc. Qed.
+
+Lemma split_none c s : has_char c s = false -> split c s = [s].
+Proof.
+  induction s as [|a r IH]; cbn; [reflexivity|]. intros H.
+  apply orb_false_elim in H. destruct H as [H1 H2]. rewrite H1, (IH H2). reflexivity.
+Qed.
+
+Lemma split_app_sep c a b : has_char c a = false -> split c (a ++ String c b) = a :: split c b.
+Proof.
+  induction a as [|x r IH]; cbn.
+  - intros _. rewrite Ascii.eqb_refl. reflexivity.
+  - intros H. apply orb_false_elim in H. destruct H as [H1 H2]. rewrite H1, (IH H2). reflexivity.
+Qed.
+
+Lemma has_char_lower s : has_char ":" (lower s) = has_char ":" s.
+Proof. induction s; cbn; [reflexivity|]. rewrite lower_char_colon, IHs. reflexivity. Qed.
+
+Lemma not_eternity_colon s : has_char ":" s = true -> (lower s =? "eternity")%string = false.
+Proof.
+  intros H. destruct (lower s =? "eternity")%string eqn:E; [|reflexivity].
+  apply String.eqb_eq in E. rewrite <- has_char_lower, E in H. discriminate H.
+Qed.
+
+Lemma not_eternity_digit c r : is_digit c = true -> (lower (String c r) =? "eternity")%string = false.
+Proof.
+  intros H. destruct (digit_sep_facts c H) as (_ & _ & _ & _ & _ & _ & He).
+  cbn [lower]. change "eternity" with (String "e" "ternity"). cbn [String.eqb]. rewrite He. reflexivity.
+Qed.
+
+(** * Decimal printing *)
+
+Lemma show_digits_app fuel : forall n acc, show_digits fuel n acc = show_digits fuel n "" ++ acc.
+Proof.
+  induction fuel as [|f IH]; intros n acc; cbn [show_digits]; [reflexivity|].
+  destruct (n <? 10); [reflexivity|].
+  rewrite IH. rewrite (IH _ (String _ "")). rewrite append_assoc. reflexivity.
+Qed.
+
+Lemma show_digits_fuel f1 : forall f2 n acc,
+  0 <= n -> n < 2 ^ (Z.of_nat f1 + 1) -> n < 2 ^ (Z.of_nat f2 + 1) ->
+  show_digits f1 n acc = show_digits f2 n acc.
+Proof.
+  induction f1 as [|f1 IH]; intros f2 n acc H0 H1 H2.
+  - cbn in H1. assert (n <? 10 = true) as E by lia.
+    destruct f2; cbn [show_digits]; [reflexivity|]. rewrite E. reflexivity.
+  - cbn [show_digits]. destruct (n <? 10) eqn:E.
+    + destruct f2; cbn [show_digits]; [reflexivity|]. rewrite E. reflexivity.
+    + destruct f2 as [|f2].
+      * cbn in H2. lia.
+      * cbn [show_digits]. rewrite E.
+        replace (Z.of_nat (S f1) + 1) with (Z.succ (Z.of_nat f1 + 1)) in H1 by lia.
+        replace (Z.of_nat (S f2) + 1) with (Z.succ (Z.of_nat f2 + 1)) in H2 by lia.
+        rewrite Z.pow_succ_r in H1, H2 by lia.
+        apply IH; lia.
+Qed.
+
+Lemma show_nat_small n : 0 <= n < 10 -> show_nat n = String (digit_char n) "".
+Proof.
+  intros H. unfold show_nat. assert (n mod 10 = n) as E by lia.
+  destruct (Z.to_nat (Z.log2 n)); cbn [show_digits]; rewrite E; [reflexivity|].
+  assert (n <? 10 = true) as -> by lia. reflexivity.
+Qed.
+
+Lemma show_nat_step n : 10 <= n ->
+  show_nat n = show_nat (n / 10) ++ String (digit_char (n mod 10)) "".
+Proof.
+  intros H. unfold show_nat.
+  pose proof (Z.log2_spec n ltac:(lia)) as [L1 L2].
+  assert (3 <= Z.log2 n) as L3. { apply Z.log2_le_pow2; [lia|]. cbn. lia. }
+  destruct (Z.to_nat (Z.log2 n)) as [|f] eqn:Ef; [lia|].
+  cbn [show_digits]. assert (n <? 10 = false) as -> by lia.
+  rewrite show_digits_app. f_equal.
+  assert (Z.log2 n = Z.succ (Z.of_nat f)) as El by lia.
+  rewrite El in L2. replace (Z.succ (Z.succ (Z.of_nat f))) with (Z.succ (Z.of_nat f + 1)) in L2 by lia.
+  rewrite Z.pow_succ_r in L2 by lia.
+  pose proof (Z.log2_spec (n / 10) ltac:(lia)) as [M1 M2].
+  pose proof (Z.log2_nonneg (n / 10)).
+  apply show_digits_fuel; try lia.
+  rewrite Z2Nat.id by lia. replace (Z.log2 (n / 10) + 1) with (Z.succ (Z.log2 (n / 10))) by lia. exact M2.
+Qed.
+
+(** all characters of [show_nat n] are digits, and [int_digits] reads the number back *)
+Fixpoint all_digits (s : string) : bool :=
+  match s with EmptyString => true | String c r => is_digit c && all_digits r end.
+
+Lemma all_digits_app a b : all_digits (a ++ b) = all_digits a && all_digits b.
+Proof. induction a; cbn; [reflexivity|]. rewrite IHa. apply andb_assoc. Qed.
+
+Lemma show_nat_digits n : 0 <= n ->
+  all_digits (show_nat n) = true /\
+  exists c r, show_nat n = String c r /\
+  exists k, n < k /\ forall a p t, int_digits a p (show_nat n ++ t) = int_digits (a * k + n) true t.
+Proof.
+  revert n. apply (Zlt_0_ind (fun n => all_digits (show_nat n) = true /\
+    exists c r, show_nat n = String c r /\
+    exists k, n < k /\ forall a p t, int_digits a p (show_nat n ++ t) = int_digits (a * k + n) true t)).
+  intros n IH Hn. destruct (Z_lt_le_dec n 10) as [Hs|Hb].
+  - rewrite show_nat_small by lia. split; [cbn; rewrite is_digit_char by lia; reflexivity|].
+    eexists _, _. split; [reflexivity|]. exists 10. split; [lia|]. intros a p t.
+    cbn [append int_digits]. rewrite digit_val_char by lia. f_equal. lia.
+  - rewrite show_nat_step by lia.
+    destruct (IH (n / 10) ltac:(lia)) as (D & c & r & Ecr & k & Hk & Hint).
+    split. { rewrite all_digits_app, D. cbn. rewrite is_digit_char by lia. reflexivity. }
+    exists c, (r ++ String (digit_char (n mod 10)) ""). split. { rewrite Ecr. reflexivity. }
+    exists (10 * k). split; [lia|]. intros a p t.
+    rewrite append_assoc, Hint. cbn [append int_digits]. rewrite digit_val_char by lia. f_equal. lia.
+Qed.
+
+Lemma all_digits_no c s : all_digits s = true -> sepc c = true -> has_char c s = false.
+Proof.
+  intros H Hc. induction s as [|a r IH]; cbn in *; [reflexivity|].
+  apply andb_prop in H. destruct H as [H1 H2]. rewrite (IH H2), orb_false_r.
+  destruct (a =? c)%char eqn:E; [|reflexivity]. apply Ascii.eqb_eq in E. subst a.
+  rewrite (digit_not_sep _ H1) in Hc. discriminate Hc.
+Qed.
+
+Lemma all_digits_nospace s : all_digits s = true -> lstrip s = s /\ rstrip s = s.
+Proof.
+  induction s as [|a r IH]; cbn; [auto|]. intros H. apply andb_prop in H. destruct H as [H1 H2].
+  destruct (digit_sep_facts a H1) as (_ & _ & _ & _ & _ & Hsp & _). rewrite Hsp. split; [reflexivity|].
+  destruct (IH H2) as [_ ->]. destruct r; reflexivity.
+Qed.
+
+Lemma py_int_show_nat n : 0 <= n -> py_int (show_nat n) = Some n.
+Proof.
+  intros H. destruct (show_nat_digits n H) as (D & c & r & Ecr & k & Hk & Hint).
+  unfold py_int. destruct (all_digits_nospace _ D) as [-> ->].
+  rewrite Ecr. rewrite Ecr in D. cbn in D. apply andb_prop in D. destruct D as [Dc _].
+  destruct (digit_sep_facts c Dc) as (_ & Hm & _ & _ & Hp & _ & _). rewrite Hp, Hm.
+  rewrite <- Ecr. specialize (Hint 0 false ""). rewrite append_nil_r in Hint. rewrite Hint. reflexivity.
+Qed.
+
+Theorem py_int_show_Z n : py_int (show_Z n) = Some n.
+Proof.
+  unfold show_Z. destruct (n <? 0) eqn:E; [|apply py_int_show_nat; lia].
+  assert (0 <= - n) as H by lia.
+  destruct (show_nat_digits _ H) as (D & c & r & Ecr & k & Hk & Hint).
+  unfold py_int. cbn [lstrip]. change (is_space "-") with false. cbv iota.
+  assert (rstrip (String "-" (show_nat (- n))) = String "-" (show_nat (- n))) as ->.
+  { cbn [rstrip]. destruct (all_digits_nospace _ D) as [_ ->]. rewrite Ecr. reflexivity. }
+  change ("-" =? "+")%char with false. change ("-" =? "-")%char with true. cbv iota.
+  specialize (Hint 0 false ""). rewrite append_nil_r in Hint. rewrite Hint. cbn. f_equal. lia.
+Qed.
+
+Lemma show_Z_no_colon n : has_char ":" (show_Z n) = false.
+Proof.
+  unfold show_Z. destruct (n <? 0) eqn:E.
+  - cbn. apply all_digits_no; [|reflexivity]. apply show_nat_digits. lia.
+  - apply all_digits_no; [|reflexivity]. apply show_nat_digits. lia.
+Qed.
+
+(** * Fixed-width fields *)
+
+Definition d2 (m : Z) : string :=
+  String (digit_char (m / 10)) (String (digit_char (m mod 10)) "").
+Definition d4 (y : Z) : string :=
+  String (digit_char (y / 1000)) (String (digit_char (y / 100 mod 10))
+    (String (digit_char (y / 10 mod 10)) (String (digit_char (y mod 10)) ""))).
+
+Lemma show_nat_2 m : 10 <= m <= 99 -> show_nat m = d2 m.
+Proof.
+  intros H. rewrite show_nat_step by lia. rewrite show_nat_small by lia. reflexivity.
+Qed.
+
+Lemma show_nat_3 m : 100 <= m <= 999 ->
+  show_nat m = String (digit_char (m / 100)) (String (digit_char (m / 10 mod 10)) (String (digit_char (m mod 10)) "")).
+Proof.
+  intros H. rewrite show_nat_step by lia. rewrite show_nat_2 by lia. unfold d2. cbn [append].
+  replace (m / 10 / 10) with (m / 100) by lia. reflexivity.
+Qed.
+
+Lemma show_nat_4 y : 1000 <= y <= 9999 -> show_nat y = d4 y.
+Proof.
+  intros H. rewrite show_nat_step by lia. rewrite show_nat_3 by lia. unfold d4. cbn [append].
+  replace (y / 10 / 100) with (y / 1000) by lia.
+  replace (y / 10 / 10 mod 10) with (y / 100 mod 10) by lia. reflexivity.
+Qed.
+
+Lemma show_Z_nonneg n : 0 <= n -> show_Z n = show_nat n.
+Proof. intros H. unfold show_Z. assert (n <? 0 = false) as -> by lia. reflexivity. Qed.
+
+Lemma show_Z_4 y : 1000 <= y <= 9999 -> show_Z y = d4 y.
+Proof. intros H. rewrite show_Z_nonneg by lia. apply show_nat_4, H. Qed.
+
+Lemma show_Z_1 d : 0 <= d <= 9 -> show_Z d = String (digit_char d) "".
+Proof. intros H. rewrite show_Z_nonneg by lia. apply show_nat_small. lia. Qed.
+
+Lemma pad2_spec m : 0 <= m <= 99 -> pad2 m = d2 m.
+Proof.
+  intros H. unfold pad2, pad. rewrite show_Z_nonneg by lia.
+  destruct (Z_lt_le_dec m 10).
+  - rewrite show_nat_small by lia. cbn. unfold d2.
+    replace (m / 10) with 0 by lia. replace (m mod 10) with m by lia. reflexivity.
+  - rewrite show_nat_2 by lia. reflexivity.
+Qed.
+
+Lemma pad4_spec y : 0 <= y <= 9999 -> pad4 y = d4 y.
+Proof.
+  intros H. unfold pad4, pad. rewrite show_Z_nonneg by lia. unfold d4.
+  destruct (Z_lt_le_dec y 10); [|destruct (Z_lt_le_dec y 100); [|destruct (Z_lt_le_dec y 1000)]].
+  - rewrite show_nat_small by lia. cbn.
+    replace (y / 1000) with 0 by lia. replace (y / 100 mod 10) with 0 by lia.
+    replace (y / 10 mod 10) with 0 by lia. replace (y mod 10) with y by lia. reflexivity.
+  - rewrite show_nat_2 by lia. cbn. unfold d2.
+    replace (y / 1000) with 0 by lia. replace (y / 100 mod 10) with 0 by lia.
+    replace (y / 10 mod 10) with (y / 10) by lia. reflexivity.
+  - rewrite show_nat_3 by lia. cbn.
+    replace (y / 1000) with 0 by lia. replace (y / 100 mod 10) with (y / 100) by lia. reflexivity.
+  - rewrite show_nat_4 by lia. reflexivity.
+Qed.
+
+Lemma week_text_spec w : 0 <= w <= 99 -> week_text w = String "W" (d2 w).
+Proof.
+  intros H. unfold week_text. destruct (w <? 10) eqn:E.
+  - rewrite show_Z_1 by lia. cbn. unfold d2.
+    replace (w / 10) with 0 by lia. replace (w mod 10) with w by lia. reflexivity.
+  - rewrite show_Z_nonneg, show_nat_2 by lia. reflexivity.
+Qed.
+
+(* finite sweeps over two-digit fields *)
+Lemma sweep (n : Z) (P : Z -> bool) : forallb P (zrange n) = true -> forall m, 0 <= m < n -> P m = true.
+Proof.
+  intros H m Hm. rewrite forallb_forall in H. apply H. unfold zrange.
+  apply in_map_iff. exists (Z.to_nat m). split; [lia|]. apply in_seq. lia.
+Qed.
+
+Lemma re_month_d2 m : 0 <= m <= 99 ->
+  re_month (digit_char (m / 10)) (digit_char (m mod 10)) = (1 <=? m) && (m <=? 12).
+Proof.
+  intros H. apply eqb_prop.
+  apply (sweep 100 (fun m => Bool.eqb (re_month (digit_char (m / 10)) (digit_char (m mod 10))) ((1 <=? m) && (m <=? 12))));
+    [vm_compute; reflexivity|lia].
+Qed.
+
+Lemma re_day_d2 m : 0 <= m <= 99 ->
+  re_day (digit_char (m / 10)) (digit_char (m mod 10)) = (1 <=? m) && (m <=? 31).
+Proof.
+  intros H. apply eqb_prop.
+  apply (sweep 100 (fun m => Bool.eqb (re_day (digit_char (m / 10)) (digit_char (m mod 10))) ((1 <=? m) && (m <=? 31))));
+    [vm_compute; reflexivity|lia].
+Qed.
+
+Lemma re_week_d2 m : 0 <= m <= 99 ->
+  re_week (digit_char (m / 10)) (digit_char (m mod 10)) = (1 <=? m) && (m <=? 53).
+Proof.
+  intros H. apply eqb_prop.
+  apply (sweep 100 (fun m => Bool.eqb (re_week (digit_char (m / 10)) (digit_char (m mod 10))) ((1 <=? m) && (m <=? 53))));
+    [vm_compute; reflexivity|lia].
+Qed.
+
+Lemma re_weekday_char k : 0 <= k <= 9 -> re_weekday (digit_char k) = (1 <=? k) && (k <=? 7).
+Proof. intros H. digit_split k H; reflexivity. Qed.
+
+Lemma num2_d2 m : 0 <= m <= 99 -> num2 (digit_char (m / 10)) (digit_char (m mod 10)) = m.
+Proof. intros H. unfold num2. rewrite !dv_char by lia. lia. Qed.
+
+Lemma num4_d4 y : 0 <= y <= 9999 ->
+  num4 (digit_char (y / 1000)) (digit_char (y / 100 mod 10)) (digit_char (y / 10 mod 10)) (digit_char (y mod 10)) = y.
+Proof. intros H. unfold num4. rewrite !dv_char by lia. lia. Qed.
+
+(** * Shapes of date texts *)
+
+Ltac bsplit :=
+  repeat match goal with
+  | H : _ && _ = true |- _ => apply andb_prop in H; destruct H
+  | H : _ || _ = true |- _ => apply orb_prop in H; destruct H
+  | H : (_ =? _)%char = true |- _ => apply Ascii.eqb_eq in H; subst
+  end.
+
+Lemma re_month_digits a b : re_month a b = true -> is_digit a = true /\ is_digit b = true.
+Proof. unfold re_month. intros H. bsplit; split; try reflexivity; assumption. Qed.
+
+Lemma re_day_digits a b : re_day a b = true -> is_digit a = true /\ is_digit b = true.
+Proof. unfold re_day. intros H. bsplit; split; try reflexivity; assumption. Qed.
+
+Lemma re_week_digits a b : re_week a b = true -> is_digit a = true /\ is_digit b = true.
+Proof. unfold re_week. intros H. bsplit; split; try reflexivity; assumption. Qed.
+
+Lemma re_weekday_digit a : re_weekday a = true -> is_digit a = true.
+Proof. unfold re_weekday. intros H. bsplit. assumption. Qed.
+
+Ltac dfacts H :=
+  let F := fresh "F" in
+  pose proof (digit_sep_facts _ H) as F; destruct F as (? & ? & ? & ? & ? & ? & ?).
+
+Ltac rw_chars :=
+  repeat match goal with
+  | H : (_ =? _)%char = false |- _ => rewrite H
+  | H : is_digit _ = true |- _ => rewrite H
+  | H : re_month _ _ = true |- _ => rewrite H
+  | H : re_day _ _ = true |- _ => rewrite H
+  | H : re_week _ _ = true |- _ => rewrite H
+  | H : re_weekday _ = true |- _ => rewrite H
+  end.
+
+Ltac shape_step :=
+  cbn [re_iso_format re_iso_calendar re_opt_weekday pendulum_parse_date split andb orb negb
+       List.length Ascii.eqb Bool.eqb bind];
+  rw_chars.
+
+Lemma shape_year a b c d :
+  is_digit a = true -> is_digit b = true -> is_digit c = true -> is_digit d = true ->
+  parse_simple (String a (String b (String c (String d "")))) =
+  if num4 a b c d =? 0 then Err EValue else Ok (Year, (num4 a b c d, 1, 1), 1).
+Proof.
+  intros Ha Hb Hc Hd. dfacts Ha. dfacts Hb. dfacts Hc. dfacts Hd.
+  unfold parse_simple, parse_instant, parse_unit, is_instant_str.
+  repeat shape_step.
+  change (neg_index units_isocalendar 1) with (@Ok unit_t Year).
+  destruct (num4 a b c d =? 0); reflexivity.
+Qed.
+
+Lemma shape_month a b c d m1 m2 :
+  is_digit a = true -> is_digit b = true -> is_digit c = true -> is_digit d = true ->
+  re_month m1 m2 = true ->
+  parse_simple (String a (String b (String c (String d (String "-" (String m1 (String m2 ""))))))) =
+  bind (pendulum_ymd (num4 a b c d) (num2 m1 m2) 1) (fun i => Ok (Month, i, 1)).
+Proof.
+  intros Ha Hb Hc Hd Hm. destruct (re_month_digits _ _ Hm) as [Hm1 Hm2].
+  dfacts Ha. dfacts Hb. dfacts Hc. dfacts Hd. dfacts Hm1. dfacts Hm2.
+  unfold parse_simple, parse_instant, parse_unit, is_instant_str.
+  repeat shape_step.
+  change (neg_index units_isoformat 2) with (@Ok unit_t Month).
+  destruct (pendulum_ymd _ _ _); reflexivity.
+Qed.
+
+Lemma shape_day a b c d m1 m2 d1 d2 :
+  is_digit a = true -> is_digit b = true -> is_digit c = true -> is_digit d = true ->
+  re_month m1 m2 = true -> re_day d1 d2 = true ->
+  parse_simple (String a (String b (String c (String d (String "-" (String m1 (String m2
+                  (String "-" (String d1 (String d2 "")))))))))) =
+  bind (pendulum_ymd (num4 a b c d) (num2 m1 m2) (num2 d1 d2)) (fun i => Ok (Day, i, 1)).
+Proof.
+  intros Ha Hb Hc Hd Hm Hdd. destruct (re_month_digits _ _ Hm) as [Hm1 Hm2].
+  destruct (re_day_digits _ _ Hdd) as [Hd1 Hd2].
+  dfacts Ha. dfacts Hb. dfacts Hc. dfacts Hd. dfacts Hm1. dfacts Hm2. dfacts Hd1. dfacts Hd2.
+  unfold parse_simple, parse_instant, parse_unit, is_instant_str.
+  repeat shape_step.
+  change (neg_index units_isoformat 3) with (@Ok unit_t Day).
+  destruct (pendulum_ymd _ _ _); reflexivity.
+Qed.
+
+Lemma shape_week a b c d w1 w2 :
+  is_digit a = true -> is_digit b = true -> is_digit c = true -> is_digit d = true ->
+  re_week w1 w2 = true ->
+  parse_simple (String a (String b (String c (String d (String "-" (String "W" (String w1 (String w2 "")))))))) =
+  bind (pendulum_week_date (num4 a b c d) (num2 w1 w2) 1) (fun i => Ok (Week, i, 1)).
+Proof.
+  intros Ha Hb Hc Hd Hw. destruct (re_week_digits _ _ Hw) as [Hw1 Hw2].
+  dfacts Ha. dfacts Hb. dfacts Hc. dfacts Hd. dfacts Hw1. dfacts Hw2.
+  unfold parse_simple, parse_instant, parse_unit, is_instant_str.
+  repeat shape_step.
+  rewrite orb_true_r. cbn [negb].
+  change (neg_index units_isocalendar 2) with (@Ok unit_t Week).
+  destruct (pendulum_week_date _ _ _); reflexivity.
+Qed.
+
+Lemma shape_weekday a b c d w1 w2 e :
+  is_digit a = true -> is_digit b = true -> is_digit c = true -> is_digit d = true ->
+  re_week w1 w2 = true -> re_weekday e = true ->
+  parse_simple (String a (String b (String c (String d (String "-" (String "W" (String w1 (String w2
+                  (String "-" (String e "")))))))))) =
+  bind (pendulum_week_date (num4 a b c d) (num2 w1 w2) (dv e)) (fun i => Ok (Weekday, i, 1)).
+Proof.
+  intros Ha Hb Hc Hd Hw He. destruct (re_week_digits _ _ Hw) as [Hw1 Hw2].
+  pose proof (re_weekday_digit _ He) as He1.
+  dfacts Ha. dfacts Hb. dfacts Hc. dfacts Hd. dfacts Hw1. dfacts Hw2. dfacts He1.
+  unfold parse_simple, parse_instant, parse_unit, is_instant_str.
+  repeat shape_step.
+  rewrite orb_true_r. cbn [negb].
+  change (neg_index units_isocalendar 3) with (@Ok unit_t Weekday).
+  destruct (pendulum_week_date _ _ _); reflexivity.
+Qed.
+
+(** * ISO week dates *)
+
+Lemma ord_jan4 y : ord (y, 1, 4) = ybase y + 4.
+Proof. unfold ord, cum. change (1 =? 1) with true. change (2 <? 1) with false. cbn [andb]. lia. Qed.
+
+Lemma w1_def y : iso_week1_monday y = ybase y + 4 - (ybase y + 3) mod 7.
+Proof.
+  unfold iso_week1_monday. rewrite ord_jan4. replace (ybase y + 4 - 1) with (ybase y + 3) by lia.
+  reflexivity.
+Qed.
+
+Lemma isocalendar_spec y m d : valid (y, m, d) ->
+  forall cy w wd, isocalendar (y, m, d) = (cy, w, wd) ->
+  y - 1 <= cy <= y + 1 /\ 1 <= w <= weeks_in_iso_year cy /\ w <= 53 /\ 1 <= wd <= 7 /\
+  wd = isoweekday (y, m, d) /\
+  iso_week1_monday cy + (w - 1) * 7 + (wd - 1) = ord (y, m, d).
+Proof.
+  intros Hv cy w wd. pose proof (ord_in_year _ _ _ Hv) as Ho.
+  unfold isocalendar, isoweekday, weeks_in_iso_year. set (o := ord (y, m, d)) in *. clearbody o.
+  pose proof (ybase_succ y) as S1. pose proof (ybase_succ (y + 1)) as S2.
+  pose proof (ybase_succ (y - 1)) as S0. replace (y - 1 + 1) with y in S0 by lia.
+  assert (0 <= (if leap y then 1 else 0) <= 1) as L1 by (destruct (leap y); lia).
+  assert (0 <= (if leap (y + 1) then 1 else 0) <= 1) as L2 by (destruct (leap (y + 1)); lia).
+  assert (0 <= (if leap (y - 1) then 1 else 0) <= 1) as L0 by (destruct (leap (y - 1)); lia).
+  destruct (o <? iso_week1_monday y) eqn:E1; [|destruct (iso_week1_monday (y + 1) <=? o) eqn:E2];
+    intros H; inversion H; subst cy w wd; clear H.
+  - replace (y - 1 + 1) with y by lia. rewrite !w1_def in *.
+    generalize dependent (ybase (y - 1)). generalize dependent (ybase y).
+    generalize dependent (if leap y then 1 else 0). generalize dependent (if leap (y - 1) then 1 else 0).
+    intros. lia.
+  - rewrite !w1_def in *.
+    generalize dependent (ybase (y + 1 + 1)). generalize dependent (ybase (y + 1)). generalize dependent (ybase y).
+    generalize dependent (if leap y then 1 else 0). generalize dependent (if leap (y + 1) then 1 else 0).
+    intros. lia.
+  - rewrite !w1_def in *.
+    generalize dependent (ybase (y + 1)). generalize dependent (ybase y).
+    generalize dependent (if leap y then 1 else 0).
+    intros. lia.
+Qed.
+
+Lemma max_ordinal_val : max_ordinal = ybase 10000.
+Proof. vm_compute. reflexivity. Qed.
+
+Lemma week_date_of_isocalendar y m d cy w wd :
+  valid (y, m, d) -> y <= 9999 -> isocalendar (y, m, d) = (cy, w, wd) ->
+  pendulum_week_date cy w wd = Ok (y, m, d).
+Proof.
+  intros Hv Hy Hi. destruct (isocalendar_spec _ _ _ Hv _ _ _ Hi) as (_ & Hw & _ & _ & _ & Ho).
+  unfold pendulum_week_date. assert (weeks_in_iso_year cy <? w = false) as -> by lia.
+  rewrite Ho. pose proof (ord_pos _ Hv). pose proof (ord_in_year _ _ _ Hv) as Hin.
+  pose proof (ybase_succ y) as Hs. pose proof (ybase_mono (y + 1) 10000 ltac:(lia)) as Hm.
+  rewrite max_ordinal_val.
+  assert ((ord (y, m, d) <? 1) || (ybase 10000 <? ord (y, m, d)) = false) as -> by lia.
+  rewrite of_ord_ord by assumption. reflexivity.
+Qed.
+
+Lemma isocalendar_year_range y m d cy w wd :
+  valid (y, m, d) -> 1000 <= y <= 9999 -> isocalendar (y, m, d) = (cy, w, wd) -> 1000 <= cy <= 9999.
+Proof.
+  intros Hv Hy. pose proof (ord_in_year _ _ _ Hv) as Ho. unfold isocalendar.
+  set (o := ord (y, m, d)) in *. clearbody o.
+  destruct (o <? iso_week1_monday y) eqn:E1; [|destruct (iso_week1_monday (y + 1) <=? o) eqn:E2];
+    intros H; inversion H; subst cy; try lia.
+  - destruct (Z.eq_dec y 1000) as [->|]; [|lia]. exfalso. revert E1 Ho. vm_compute (iso_week1_monday 1000).
+    vm_compute (ybase 1000). lia.
+  - destruct (Z.eq_dec y 9999) as [->|]; [|lia]. exfalso. revert E2 Ho.
+    vm_compute (iso_week1_monday (9999 + 1)). vm_compute (ybase 9999). vm_compute (leap 9999). lia.
+Qed.
+
+(** * No ":" in an instant text; head of an instant text *)
+
+Ltac to_digits :=
+  repeat match goal with
+  | H : re_month _ _ = true |- _ => apply re_month_digits in H; destruct H
+  | H : re_day _ _ = true |- _ => apply re_day_digits in H; destruct H
+  | H : re_week _ _ = true |- _ => apply re_week_digits in H; destruct H
+  | H : re_weekday _ = true |- _ => apply re_weekday_digit in H
+  end.
+
+Ltac all_dfacts :=
+  repeat match goal with H : is_digit ?c = true |- _ => dfacts H; clear H end.
+
+Ltac no_colon_leaf :=
+  bsplit; to_digits; all_dfacts; cbn [has_char]; rw_chars; reflexivity.
+
+Lemma iso_format_no_colon s : re_iso_format s = true -> has_char ":" s = false.
+Proof.
+  destruct s as [|a [|b [|c [|d r]]]]; try (intros H; discriminate H).
+  cbn [re_iso_format]. destruct r as [|s1 [|m1 [|m2 r2]]]; try (intros H; bsplit; discriminate).
+  - intros H. no_colon_leaf.
+  - destruct r2 as [|s2 [|d1 [|d2 [|x1 x2]]]]; try (intros H; bsplit; discriminate); intros H; no_colon_leaf.
+Qed.
+
+Lemma opt_weekday_no_colon r : re_opt_weekday r = true -> has_char ":" r = false.
+Proof.
+  destruct r as [|s1 [|e [|x1 x2]]]; try (intros H; discriminate H); [reflexivity|].
+  cbn [re_opt_weekday]. intros H. no_colon_leaf.
+Qed.
+
+Lemma iso_calendar_no_colon s : re_iso_calendar s = true -> has_char ":" s = false.
+Proof.
+  destruct s as [|a [|b [|c [|d r]]]]; try (intros H; discriminate H).
+  cbn [re_iso_calendar]. intros H. apply andb_prop in H. destruct H as [H Hr].
+  assert (has_char ":" r = false) as Hc.
+  { destruct r as [|s1 [|W [|w1 [|w2 r2]]]]; try (apply opt_weekday_no_colon; exact Hr).
+    destruct ((s1 =? "-")%char && (W =? "W")%char) eqn:E; [|apply opt_weekday_no_colon; exact Hr].
+    apply andb_prop in Hr. destruct Hr as [Hw Hr2]. apply opt_weekday_no_colon in Hr2.
+    bsplit. to_digits. all_dfacts. cbn [has_char]. rw_chars. rewrite Hr2. reflexivity. }
+  bsplit. all_dfacts. cbn [has_char]. rw_chars. rewrite Hc. reflexivity.
+Qed.
+
+Lemma instant_no_colon s : is_instant_str s = true -> has_char ":" s = false.
+Proof.
+  unfold is_instant_str. intros H. apply orb_prop in H.
+  destruct H; [apply iso_format_no_colon|apply iso_calendar_no_colon]; assumption.
+Qed.
+
+Lemma instant_head s : is_instant_str s = true -> exists a r, s = String a r /\ is_digit a = true.
+Proof.
+  unfold is_instant_str.
+  destruct s as [|a [|b [|c [|d r]]]]; try (intros H; discriminate H).
+  cbn [re_iso_format re_iso_calendar]. intros H. exists a, (String b (String c (String d r))).
+  split; [reflexivity|]. bsplit; assumption.
+Qed.
+
+(** * helpers.period on the two kinds of text *)
+
+Lemma parse_period_simple s : is_instant_str s = true -> parse_period s = parse_simple s.
+Proof.
+  intros H. destruct (instant_head s H) as (a & r & -> & Ha).
+  unfold parse_period. change (unit_name Eternity) with "eternity".
+  rewrite (not_eternity_digit a r Ha), H. reflexivity.
+Qed.
+
+Lemma join_has_colon x y l : has_char ":" (join_colon (x :: y :: l)) = true.
+Proof.
+  cbn [join_colon]. rewrite has_char_app. cbn. apply orb_true_r.
+Qed.
+
+Lemma split_join l : l <> [] -> Forall colon_free l -> split ":" (join_colon l) = l.
+Proof.
+  induction l as [|x [|y l] IH]; intros Hne Hf; [congruence| |].
+  - cbn [join_colon]. inversion Hf; subst. apply split_none. assumption.
+  - inversion Hf; subst. change (join_colon (x :: y :: l)) with (x ++ String ":" (join_colon (y :: l))).
+    rewrite split_app_sep by assumption. rewrite IH; [reflexivity|discriminate|assumption].
+Qed.
+
+Lemma parse_period_long u body rest :
+  Forall colon_free (u :: body :: rest) ->
+  parse_period (join_colon (u :: body :: rest)) =
+  if is_instant_str body then period_of_components (u :: body :: rest) else Err EPeriod.
+Proof.
+  intros Hf. unfold parse_period. change (unit_name Eternity) with "eternity".
+  pose proof (join_has_colon u body rest) as Hc.
+  rewrite (not_eternity_colon _ Hc).
+  destruct (is_instant_str (join_colon (u :: body :: rest))) eqn:E.
+  { apply instant_no_colon in E. congruence. }
+  unfold is_period_str. rewrite Hc. rewrite split_join by (assumption || discriminate).
+  cbn [nth andb]. reflexivity.
+Qed.
